@@ -169,6 +169,13 @@ class Metacommand:
         else:
             expectation = f"from {self.min_operands} to {self.max_operands} operand" + ("s" if self.max_operands >= 2 else "")
 
+        if insn_operands and isinstance(insn_operands[-1], CodeBlock):
+            reports.error(
+                "wrong-meta-operands",
+                (insn.ctx_start, insn.ctx_end, f"Metacommand '{insn.name.name}' does not take a code block")
+            )
+            raise reports.RecoverableError("Unexpected code block")
+
         if len(insn_operands) < self.min_operands:
             reports.error(
                 "wrong-meta-operands",
